@@ -8,4 +8,6 @@ HARNESSES = [h for h in _load("sg_common").sg_harnesses(("SEL_WR",))]
 # block codec staging layer (K-block contract): IMA ADPCM, WAV and AIFF layouts
 HARNESSES += _load("blk_common").ima_harnesses(("SEL_WRITE",))
 
+HARNESSES += _load("blk_common").sds_harnesses(("SEL_HEADER",))
+
 META = {"assumptions": ["E-memfile"], "outside": ["block codecs and header determinism: see DESIGN"]}
